@@ -149,6 +149,63 @@ theorem pred_covar_nan_eq_delete [DecidableEq α] (Ktt : DMat s s α) (Kts : DMa
     rw [zeroCols_mul _ he, hz, ← Matrix.mul_assoc]
     simp [Matrix.transpose_submatrix]
 
+/-! ### batches of targets: `fill` is per element, `mask` deletes the pattern reduced over the batch -/
+
+section batch
+variable {B : Nat}
+
+/-- `_get_observed` on a batch: an entry is observed iff it is observed in every batch element. -/
+theorem obsUnion_iff (obs : Fin B → Fin n → Bool) (i : Fin n) :
+    obsUnion obs i = true ↔ ∀ b, obs b i = true := by
+  simp [obsUnion, List.all_eq_true]
+
+/-- **`fill` on a batch is judged per element**: element `b` of the batched predictive mean and covariance under
+`fill` equals the deleted-data value for ITS OWN pattern `obs b` — whatever is missing in the other batch elements
+(corollary of `pred_mean_fill_eq_delete` / `pred_covar_nan_eq_delete`). -/
+theorem fill_batch_elementwise [DecidableEq α] (A : Fin B → DMat n n α) (r : Fin B → DMat n 1 α)
+    (mt : Fin B → DMat s 1 α) (Kts : Fin B → DMat s n α) (Ktt : Fin B → DMat s s α) (obs : Fin B → Fin n → Bool)
+    (c c' : α) (b : Fin B)
+    (hoo : IsUnit ((A b).toMatrix.submatrix (obsIdx (obs b)) (obsIdx (obs b))).det) :
+    (∀ m, predMeanFillBatch A r mt Kts obs c c' b = some m →
+        m.toMatrix = (mt b).toMatrix + (Kts b).toMatrix.submatrix id (obsIdx (obs b))
+          * ((A b).toMatrix.submatrix (obsIdx (obs b)) (obsIdx (obs b)))⁻¹
+          * (r b).toMatrix.submatrix (obsIdx (obs b)) id) ∧
+    (∀ C, predCovarFillBatch Ktt Kts A obs b = some C →
+        C.toMatrix = (Ktt b).toMatrix - (Kts b).toMatrix.submatrix id (obsIdx (obs b))
+          * ((A b).toMatrix.submatrix (obsIdx (obs b)) (obsIdx (obs b)))⁻¹
+          * ((Kts b).toMatrix.submatrix id (obsIdx (obs b)))ᵀ) := by
+  constructor
+  · intro m h
+    simp only [predMeanFillBatch, Option.map_eq_some_iff] at h
+    obtain ⟨a, ha, rfl⟩ := h
+    exact pred_mean_fill_eq_delete (A b) (r b) (mt b) (Kts b) (obs b) c c' a ha hoo
+  · intro C h
+    exact (pred_covar_nan_eq_delete (Ktt b) (Kts b) (A b) (obs b) hoo).2 C h
+
+/-- `mask` on a batch deletes, in every element, the entries missing in ANY element (`obsUnion`; the documented
+behaviour of `_get_observed`). -/
+theorem mask_batch_deletes_union [DecidableEq α] (A : Fin B → DMat n n α) (r : Fin B → DMat n 1 α)
+    (mt : Fin B → DMat s 1 α) (Kts : Fin B → DMat s n α) (Ktt : Fin B → DMat s s α) (obs : Fin B → Fin n → Bool)
+    (b : Fin B)
+    (hoo : IsUnit ((A b).toMatrix.submatrix (obsIdx (obsUnion obs)) (obsIdx (obsUnion obs))).det) :
+    (∀ m, predMeanMaskBatch A r mt Kts obs b = some m →
+        m.toMatrix = (mt b).toMatrix + (Kts b).toMatrix.submatrix id (obsIdx (obsUnion obs))
+          * ((A b).toMatrix.submatrix (obsIdx (obsUnion obs)) (obsIdx (obsUnion obs)))⁻¹
+          * (r b).toMatrix.submatrix (obsIdx (obsUnion obs)) id) ∧
+    (∀ C, predCovarMaskBatch Ktt Kts A obs b = some C →
+        C.toMatrix = (Ktt b).toMatrix - (Kts b).toMatrix.submatrix id (obsIdx (obsUnion obs))
+          * ((A b).toMatrix.submatrix (obsIdx (obsUnion obs)) (obsIdx (obsUnion obs)))⁻¹
+          * ((Kts b).toMatrix.submatrix id (obsIdx (obsUnion obs)))ᵀ) := by
+  constructor
+  · intro m h
+    simp only [predMeanMaskBatch, Option.map_eq_some_iff] at h
+    obtain ⟨a, ha, rfl⟩ := h
+    exact pred_mean_mask_eq_delete (A b) (r b) (mt b) (Kts b) (obsUnion obs) a ha
+  · intro C h
+    exact (pred_covar_nan_eq_delete (Ktt b) (Kts b) (A b) (obsUnion obs) hoo).1 C h
+
+end batch
+
 /-! ### MLL -/
 
 /-- The `mask` MLL is computed from the deleted-data pieces but divided by the *full* count `N`; the
@@ -315,5 +372,28 @@ example : (predCovarIgnoringPolicy Kttex Ktsex Aex).map (·.arr) = some #[#[(9 /
 
 /-- The observed block of the example is invertible (hypothesis `hoo` is satisfiable). -/
 example : (DMat.inv? (maskSub Aex obsex)).isSome = true := by decide +kernel
+
+private def rex : DMat 3 1 ℚ := DMat.ofMatrix !![1; 2; 3]
+private def mtex : DMat 1 1 ℚ := DMat.ofMatrix !![0]
+/-- A batch of two patterns: element 0 fully observed, element 1 with its second target missing. -/
+private def obsB : Fin 2 → Fin 3 → Bool := ![![true, true, true], ![true, false, true]]
+
+/-- Batch of two elements under `fill`: element 0 (fully observed) returns `9/7`, element 1 returns `1` — each its own
+deleted-data value; the hypotheses of `fill_batch_elementwise` are satisfiable for both elements … -/
+example : (predMeanFillBatch (fun _ => Aex) (fun _ => rex) (fun _ => mtex) (fun _ => Ktsex) obsB (-999) (-999) 0).map (·.arr)
+      = some #[#[(9 / 7 : ℚ)]] ∧
+    (predMeanFillBatch (fun _ => Aex) (fun _ => rex) (fun _ => mtex) (fun _ => Ktsex) obsB (-999) (-999) 1).map (·.arr)
+      = some #[#[(1 : ℚ)]] ∧
+    (DMat.inv? (maskSub Aex (obsB 0))).isSome = true ∧ (DMat.inv? (maskSub Aex (obsB 1))).isSome = true := by
+  refine ⟨?_, ?_, ?_, ?_⟩ <;> decide +kernel
+
+/-- … while a `fill` mean cache built from the batch-reduced `mask` pattern (`obsUnion`, as in the seeded change
+C08-8) hands element 0 the value `1 ≠ 9/7`: it ignores a target that element 0 did observe.  Under `mask` that
+same value is the documented one (`mask_batch_deletes_union`). -/
+example : ((meanCacheFill Aex rex (obsUnion obsB) (-999)).map fun a => (predMeanFill mtex Ktsex (obsUnion obsB) a (-999)).arr)
+      = some #[#[(1 : ℚ)]] ∧
+    (predMeanMaskBatch (fun _ => Aex) (fun _ => rex) (fun _ => mtex) (fun _ => Ktsex) obsB 0).map (·.arr)
+      = some #[#[(1 : ℚ)]] := by
+  constructor <;> decide +kernel
 
 end C16
